@@ -632,7 +632,7 @@ class Checker:
             if got != G.norm_lit(s[1]):
                 if not p["vmap"]:
                     key = "msl-override-default:" + msl_default_class(d["init"])
-                elif found and value_class(t, bits) != "nan":
+                elif found:
                     key = "msl-override-value:%s:%s" % (G.TYNAME[t], value_class(t, bits))
                 else:
                     cls = self.blame_expr(case, decls[:i], d["init"], t, which="model_msl")
@@ -765,7 +765,7 @@ def run(ctx):
         gen_writer=lambda: gen.regenerate(tools, ["overrides"]), extra_obligation_files=["Overrides/GenOblig.v"])
     ctx.cov["trusted_base"] += [
         "Flocq 4 (IEEE754.BinarySingleNaN, Bits) as the definition of binary32/binary64 arithmetic; its Reals axioms are listed above where a theorem depends on them",
-        "transcription of WGSL override-expression semantics and of the WebGPU/WebIDL conversion of pipeline-constant values (coq/Overrides/Spec.v header); NaN = 'not set' and id-before-name are naga's documented API contract",
+        "transcription of WGSL override-expression semantics and of the WebGPU/WebIDL conversion of pipeline-constant values (coq/Overrides/Spec.v header): NaN is a value (false for bool, unconvertible otherwise) although naga's doc comments say 'not set'; id-before-name is naga's documented keying",
         "Go float64 -> int32/int64/uint32 conversion outside the target range is implementation defined: F64.v models gc/amd64 and is compared with the running toolchain on every run (ovrdrive goconv)",
         "translator: harness/cmd/goextract (switchmap/assigns/funcsrc over ir/process_overrides.go, msl pipeline_constants.go) + gen.py gen_overrides -> coq/Gen/OverrideOps.v",
         "extraction: ExtrOcamlBasic only, generic JSON driver ocaml/common/driver.ml; OCaml 4.13.1",
